@@ -72,6 +72,11 @@ ApplyStore(o) ==
   CASE o.f = "write"  -> ~o.panic /\ st' = (o.k :> o.v) @@ st
     [] o.f = "remove" -> ~o.panic /\ st' = Del(st, {o.k})
     [] o.f = "get"    -> ~o.panic /\ o.r = Get(st, o.k, "") /\ st' = st
+    \* a dump loaded into a fresh store holds exactly what the store held at one moment between the call and the return
+    [] o.f = "snapshot" -> /\ ~o.panic /\ o.err = ""
+                           /\ {<<o.snap[i].k, o.snap[i].v>> : i \in 1..Len(o.snap)} = {<<k, st[k]>> : k \in Dom(st)}
+                           /\ Len(o.snap) = Cardinality(Dom(st))
+                           /\ st' = st
 Apply(o) == CASE Cur.kind = "idpool" -> ApplyPool(o)
               [] Cur.kind = "ackq" -> ApplyAckq(o)
               [] Cur.kind = "registry" -> ApplyRegistry(o)
